@@ -653,6 +653,48 @@ async fn scenario(name: &str) -> Result<(), String> {
                 return Err(format!("entries across the rollover at {}: {:?} are returned, {:?} were acknowledged", rolled_at, idx, want));
             }
         }
+        "cut_at_first_index_of_a_file" | "cut_behind_pointer_installed_on_existing_log" => {
+            // C03: the cut is exactly the position at which the file that holds it starts to serve entries - the first index of an ordinary
+            // file, or the split-off position behind a snapshot pointer installed on a node that already had a log (delete_through inside its file)
+            let node = boot(d2.path()).await;
+            let blank = |i: u64, t: u64| Entry::<ClientRequest> { term: t, index: i, payload: EntryPayload::Blank };
+            let cut: u64;
+            if name == "cut_at_first_index_of_a_file" {
+                let old: Vec<Entry<ClientRequest>> = (1..=5).map(|i| blank(i, 1)).collect();
+                node.store.replicate_to_log(&old).await.map_err(|e| format!("MODEL: replicate: {}", e))?;
+                cut = 1;
+            } else {
+                use tokio::io::AsyncWriteExt;
+                let old: Vec<Entry<ClientRequest>> = (1..=8).map(|i| blank(i, 1)).collect();
+                node.store.replicate_to_log(&old).await.map_err(|e| format!("MODEL: replicate: {}", e))?;
+                let (id, mut file) = node.store.create_snapshot().await.map_err(|e| format!("MODEL: create_snapshot: {}", e))?;
+                file.write_all(&bytes).await.unwrap();
+                file.flush().await.unwrap();
+                node.store.finalize_snapshot_installation(s_index, s_term, Some(s_index), id, file).await.map_err(|e| format!("MODEL: install: {}", e))?;
+                cut = s_index + 1;
+            }
+            tokio::time::sleep(Duration::from_millis(100)).await;
+            let before = node.store.get_log_entries(cut, cut + 3).await.map_err(|e| format!("MODEL: query: {}", e))?;
+            if before.len() != 3 {
+                return Err(format!("MODEL: the scenario's own set-up did not take: {} entries from index {}", before.len(), cut));
+            }
+            node.store.delete_logs_from(cut, None).await.map_err(|e| format!("delete_logs_from fails: {}", e))?;
+            tokio::time::sleep(Duration::from_millis(100)).await;
+            let after = node.store.get_log_entries(cut, cut + 6).await.map_err(|e| format!("query after the truncation fails: {}", e))?;
+            if !after.is_empty() {
+                return Err(format!(
+                    "delete-from {} ({}): entries {:?} are still returned, nothing at or above the cut was to stay",
+                    cut, if name == "cut_at_first_index_of_a_file" { "the first index of the log file" } else { "right behind the snapshot pointer installed on an existing log" },
+                    after.iter().map(|e| e.index).collect::<Vec<_>>()
+                ));
+            }
+            let fresh: Vec<Entry<ClientRequest>> = (cut..cut + 2).map(|i| blank(i, 2)).collect();
+            node.store.replicate_to_log(&fresh).await.map_err(|e| format!("the append at the cut index {} is refused after the truncation: {}", cut, e))?;
+            let last = node.store.get_log_entries(cut, cut + 2).await.map_err(|e| format!("query fails: {}", e))?;
+            if last.len() != 2 || last.iter().any(|e| e.term != 2) {
+                return Err(format!("the entries appended at the cut are not the ones returned: {:?}", last.iter().map(|e| (e.index, e.term)).collect::<Vec<_>>()));
+            }
+        }
         "truncate_behind_snapshot_pointer" | "truncate_behind_installed_snapshot" | "truncate_at_split_off_behind_snapshot_pointer" => {
             // C03 at the level of the log manager: the log catalogue starts with a snapshot pointer file (written by the second
             // compaction, or by a snapshot installation); a conflict truncation inside the current file must remove exactly the suffix
